@@ -328,30 +328,37 @@ class C15(Check):
                    'Variant/HashMap/List/String behave as value trees with an insertion-ordered map (checked by the dump of every parsed tree); Variant::clear() empties the target']
 
     def run_impl(self, cases, tag='impl'):
-        """as Check.run_impl, but a stream on which the implementation crashes hundreds of times (every crash restarts
-        the harness) is run in pieces; after 1200 crashes the rest of the stream is not run (marked, ignored by judge)"""
+        """as Check.run_impl, but in pieces, so that a tree on which the implementation crashes or hangs on (nearly) every case
+        (every crash restarts the harness, every hang costs per_case_timeout seconds) is given up early: a stream starts with a
+        piece of 30 cases and goes on in pieces of 300 while crashes keep coming; a crash weighs 1, a hang 10; at weight 150 the
+        rest of the stream is not run, at weight 300 over all streams the remaining streams are not run at all (vf drops cases
+        marked `! notrun`; what has been seen by then is reported)"""
         import vf
         rundir = os.path.join(vf.BUILD, self.id, 'run')
-        res, crashes, i, total, small = [], {}, 0, 0, False
+        res, crashes, i, weight, size = [], {}, 0, 0, 30
         while i < len(cases):
-            size = 300 if small else 20000
+            if weight >= 150 or getattr(self, '_crash_weight', 0) >= 300:
+                vf.log('[C15] %s: too many crashes / hangs (weight %d, all streams %d): remaining %d cases not run' % (
+                    tag, weight, getattr(self, '_crash_weight', 0), len(cases) - i))
+                res += [['! notrun'] for _ in cases[i:]]
+                break
             chunk = cases[i:i + size]
-            if total > 1200:
-                res += [['! not-run'] for _ in chunk]
-            else:
-                try:
-                    r, c = vf.run_exe_on_cases(self.exes['impl'], chunk, rundir, tag, is_impl=True, per_case_timeout=self.per_case_timeout)
-                except RuntimeError:
-                    if small:
-                        raise
-                    small = True
-                    continue
-                res += r
-                for k, v in c.items():
-                    crashes[i + k] = v
-                total += len(c)
-                small = small or len(c) > 50
-            i += size
+            try:
+                r, c = vf.run_exe_on_cases(self.exes['impl'], chunk, rundir, tag, is_impl=True, per_case_timeout=self.per_case_timeout)
+            except RuntimeError:
+                if size <= 300:
+                    raise
+                size = 300
+                continue
+            r = [x if x != ['! notrun'] else ['! not-run'] for x in r]
+            res += r
+            for k, v in c.items():
+                crashes[i + k] = v
+            w = sum(10 if v[0] == 'timeout' else 1 for v in c.values())
+            weight += w
+            self._crash_weight = getattr(self, '_crash_weight', 0) + w
+            i += len(chunk)
+            size = 300 if (w > 3 or weight > 20) else 20000
         return res, crashes
 
     def _deep(self, f, cases, tag):
@@ -417,9 +424,6 @@ class C15(Check):
                 k += 1
             return 'strip: output differs from the reference: implementation has <%s> where the reference has <%s>; expected `%s` got `%s`' % (
                 self._byte_name(got, k), self._byte_name(exp, k), exp[:200], got[:200])
-        if kind == 'pstr':
-            return ('pstr: the value of a valid JSON string literal differs from the RFC 8259 reference (escapes, surrogate pairs, UTF-8 bytes): '
-                    'spec expects `%s`, implementation gives `%s`' % (exp[:200], got[:200]))
         if kind == 'parse2':
             return ('parse2: one Parser object used for two texts (flag 1: also one target Variant) does not answer like a fresh Parser with a fresh '
                     'Variant (first field 1 = same answers; then the two answers): `%s`' % got[:300])
@@ -434,12 +438,9 @@ class C15(Check):
                     'model `%s`, implementation `%s`' % (exp[:100], got[:100]))
         if kind == 'rtx':
             kind = 'rt'
-        if kind == 'rt' and exp.startswith('? |'):
-            return ('rt (extension beyond the property\'s class: unsigned integers, arrays): toString then parse does not give the tree the theorem '
-                    'ext_parse_toString_readback names (arrays as lists, unsigned as int/int64, 2^63 and above saturated): expected `%s` got `%s`' % (exp[:200], got[:300]))
         if kind == 'rt' and got.startswith('1 |'):
-            return ('rt: toString then parse gives an equal tree, but not the one the theorem parse_toString_roundtrip names (canon v: integers that fit '
-                    '32 bits come back as intType, everything else identical): expected `%s` got `%s`' % (exp[:200], got[:300]))
+            return ('rt: Variant::operator== calls the tree read back equal to the tree written (both ways round), but the two differ in more than the '
+                    'width of their integers (z<n> stands for an integer of any width; == converts between types): expected `%s` got `%s`' % (exp[:200], got[:300]))
         if kind == 'rt':
             return 'rt: toString then parse does not give an equal tree (observation: equal flag | text, parse result): `%s`' % got[:300]
         return '%s: spec expects `%s`, implementation gives `%s`' % (kind, exp[:200], got[:200])
@@ -484,6 +485,8 @@ class C15(Check):
                     out.append((text, None, None))      # the harness's sentinel is still there: nothing was reported at all
         if t[0] == 'parse' and len(t) >= 2:
             one(t[1], ol)
+        elif t[0] == 'pstr' and len(t) >= 2:
+            one('22' + (t[1] if t[1] != '-' else '') + '22', ol)
         elif t[0] == 'parse2' and len(t) >= 4:
             secs = ol.split(' | ')
             if len(secs) >= 3:
@@ -496,11 +499,20 @@ class C15(Check):
             one(t[2], ol)
         return out
 
+    @staticmethod
+    def _int_blind(line):
+        """the observation line of rt / rtinto / rtx with the width and signedness of every integer token wiped out (i5, I5, u5, U5 -> z5):
+        the text asks for an EQUAL tree, Variant::operator== and JsonSpec.value_eq compare integers by value"""
+        import re
+        return ' '.join(re.sub(r'^[iIuU](-?[0-9]+)$', r'z\1', t) for t in line.split(' '))
+
     def judge(self, cases, impl_obs, spec_obs):
         from vf import first_diff
         fails = []
         failed = set()
         for i, (c, s, o) in enumerate(zip(cases, spec_obs, impl_obs)):
+            if c and c[0].split(' ')[0] in ('rt', 'rtinto', 'rtx'):
+                s, o = [self._int_blind(l) for l in s], [l if l.startswith('! ') else self._int_blind(l) for l in o]
             crash = [j for j, l in enumerate(o) if l.startswith('! ')]
             if o == ['! not-run']:
                 continue
@@ -612,7 +624,7 @@ class C15(Check):
         else:
             for tr in chains(257)[:3]:
                 cases.append(['rt ' + tr])
-            for tr in chains(300)[3:] + chains(500)[:3] + chains(1000)[:2] + chains(999)[2:3]:
+            for tr in chains(300)[3:] + chains(500)[:2] + chains(1000)[:1] + chains(999)[2:3]:
                 cases.append(['rtx ' + tr])
         out.append(Stream('nesting', cases, note='arrays/objects nested up to depth 1000, closed and truncated'))
         out += self.streams_case_splits(thorough, rng, docs)
@@ -780,13 +792,16 @@ class C15(Check):
         # runs of LF, CR LF, CR outside and inside a string literal, then a syntax error in column 6 of the last line; a last line of
         # 70000 bytes (blanks, a literal, many tokens); the same through a reused Parser and the static wrappers
         for n in ([32767, 32768, 65535, 65536, 65537, 70000, 131072] if thorough else [32768, 65535, 65536, 70000]):
+            full = thorough or n in (65536, 70000)
             cases.append(['parse ' + hexs(b'\n' * n + b'     x')])
-            cases.append(['parse ' + hexs(b'[1,' + b'\r\n' * (n - 1) + b'2,\n     }')])
-            cases.append(['parse ' + hexs(b'\r' * n + b'[    x')])
-            cases.append(['parse ' + hexs(b'["' + b'\n' * n + b'"   : 1]')])
-            cases.append(['parse ' + hexs(b'[\n' + b' ' * n + b'x')])
-            cases.append(['parse ' + hexs(b'\n["' + b'a' * n + b'" 1]')])
-            cases.append(['parse ' + hexs(b'\n\n[' + (b'"' + b'b' * (n // 100 - 3) + b'",') * 100 + b'1 2]')])      # 200 tokens
+            if full:
+                cases.append(['parse ' + hexs(b'[1,' + b'\r\n' * (n - 1) + b'2,\n     }')])
+                cases.append(['parse ' + hexs(b'\r' * n + b'[    x')])
+                cases.append(['parse ' + hexs(b'["' + b'\n' * n + b'"   : 1]')])
+                cases.append(['parse ' + hexs(b'[\n' + b' ' * n + b'x')])
+            if thorough or n == 70000:                      # the tokenizer appends byte by byte: seconds per case under ASan
+                cases.append(['parse ' + hexs(b'\n["' + b'a' * n + b'" 1]')])
+                cases.append(['parse ' + hexs(b'\n\n[' + (b'"' + b'b' * (n // 100 - 3) + b'",') * 100 + b'1 2]')])      # 200 tokens
         n = 70000
         cases.append(['parse2 0 %s %s' % (hexs(b'\n' * n + b'[]'), hexs(b'\n' * n + b'     x'))])
         cases.append(['parse2 1 %s %s' % (hexs(b'\n' * n + b'     x'), hexs(b'\r\n' * n + b'[    x'))])
@@ -794,7 +809,9 @@ class C15(Check):
         cases.append(['sparse s ' + hexs(b'\r\n' * n + b'[' + b' ' * n + b'x')])
         cases.append(['sparse p ' + hexs(b'[' + b'\r' * n + b' ' * n + b'x')])
         cases.append(['into L1,i0 ' + hexs(b'[' + b'\n' * n + b'     x')])
-        cases.append(['strip ' + hexs(b'/*' + b'\n' * n + b'*/x//' + b'y' * n + b'\r' + b'\r\n' * n + b'/')])
+        cases.append(['strip ' + hexs(b'/*' + b'\n' * n + b'*/x//y\r/')])
+        if thorough:
+            cases.append(['strip ' + hexs(b'/*' + b'\n' * n + b'*/x//' + b'y' * n + b'\r' + b'\r\n' * n + b'/')])
         for k in range(60 if thorough else 20):                                         # a 0 byte inside the String
             d = with_comments(rng, gen_doc(rng))
             at = rng.randrange(len(d) + 1)
